@@ -206,7 +206,7 @@ func (skiplist *skiplist) getRank(member string, score float64) int64 {
 		}
 
 		/* x might be equal to zsl->header, so test if obj is non-NULL */
-		if x.Member == member {
+		if x != skiplist.header && x.Member == member {
 			return rank
 		}
 	}
